@@ -262,6 +262,14 @@ def run_task(task):
     """Executed in a worker: returns a JSON-able result dict."""
     prop_id, sub_name, shard, n_examples, seed_value, tier, known_keys = task
     setup_environment()
+    try:
+        # a runaway allocation (e.g. 1e10 integration nodes under a mutant) must fail as
+        # MemoryError inside the case, not summon the kernel's OOM killer
+        import resource
+        lim = int(os.environ.get("VERIF_MEM_GB", "6")) * 2**30
+        resource.setrlimit(resource.RLIMIT_AS, (lim, lim))
+    except Exception:
+        pass
     t0 = time.time()
     out = {"sub": sub_name, "shard": shard, "failure": None, "harness": None,
            "known_hits": {}, "wall_s": 0.0}
@@ -450,8 +458,20 @@ def drive(prop_id, tier, seed_value, only=None, jobs=None, scale=1.0,
     if len(tasks) == 1 or jobs == 1:
         results = [run_task(t) for t in tasks]
     else:
-        with ctx.Pool(min(jobs, len(tasks))) as pool:
-            results = pool.map(run_task, tasks, chunksize=1)
+        # ProcessPoolExecutor (not Pool.map): a worker killed by the kernel (e.g. out of
+        # memory under a mutant) raises BrokenProcessPool instead of hanging for ever
+        from concurrent.futures import ProcessPoolExecutor
+        from concurrent.futures.process import BrokenProcessPool
+        results = []
+        with ProcessPoolExecutor(min(jobs, len(tasks)), mp_context=ctx) as ex:
+            futs = [(t, ex.submit(run_task, t)) for t in tasks]
+            for t, fu in futs:
+                try:
+                    results.append(fu.result())
+                except BrokenProcessPool:
+                    results.append({"sub": t[1], "shard": t[2], "failure": None, "known_hits": {},
+                                    "harness": "worker process died (killed / out of memory)",
+                                    "wall_s": 0.0})
 
     per_sub = {}
     failures = []
